@@ -87,7 +87,7 @@ def build(members, *, data_align=4096, data_gap=0, trailing_blocks=2, extra_tail
         cur = -(-(cur + m["size"]) // data_align) * data_align
     out = bytearray()
     for m in members:
-        tf = b"5" if m["dir"] else b"0"
+        tf = b"5" if m["dir"] else m.get("typeflag", b"0")
         out += ext_record(m)
         out += header(m["name"], m["size"], typeflag=tf, visor=m["visor"], offset=offs.get(id(m), 0), prefix=m.get("prefix", ""),
                       mode=0o755 if m["dir"] else 0o644)
